@@ -116,25 +116,31 @@ def solo_facts(text):
 # --------------------------------------------------------------------------
 class Scheduled:
     """Runs len(texts) parse calls on ONE engine in real threads; `schedule` is a list of call
-    indices: the named call is released to run until it next enters Lexer.token (or finishes)."""
+    indices: the named call is released to run until it next enters Lexer.token (or finishes).
+    A text may be (route, text): route "options" parses through engine(text, options), "copy" through engine.copy(options)(text).
+    A call that does not come back to a scheduling point within `block_timeout` is taken to be BLOCKED (waiting for
+    something another call holds - an engine may legitimately serialise its parses); the schedule goes on with the other
+    calls.  Only when no call at all can make progress is that a problem (deadlock / hang)."""
 
-    def __init__(self, eng, texts, timeout=60.0):
-        self.eng, self.texts, self.timeout = eng, texts, timeout
+    def __init__(self, eng, texts, timeout=60.0, block_timeout=3.0):
+        self.eng, self.texts, self.timeout, self.block_timeout = eng, texts, timeout, block_timeout
         n = len(texts)
         self.go = [threading.Semaphore(0) for _ in range(n)]
-        self.arrived = threading.Semaphore(0)
+        self.arr = [threading.Semaphore(0) for _ in range(n)]
+        self.pending = [False] * n        # a go was given and the call has not come back yet
         self.state = ["new"] * n          # new | gated | done
         self.results = [None] * n
         self.traces = [[] for _ in range(n)]
         self.tid = {}
         self.problems = []
+        self.blocked_seen = 0
 
     def hook(self, lexer, orig):
         i = self.tid.get(threading.get_ident())
         if i is None:
             return orig(lexer)
         self.state[i] = "gated"
-        self.arrived.release()
+        self.arr[i].release()
         if not self.go[i].acquire(timeout=self.timeout * 4):
             raise RuntimeError("scheduler abandoned call %d" % i)
         try:
@@ -145,15 +151,39 @@ class Scheduled:
         self.traces[i].append((True, 0) if t is None else (False, lexer.lexpos))
         return t
 
+    def parse(self, item):
+        if isinstance(item, tuple) and len(item) == 2 and item[0] in ("plain", "options", "copy"):
+            route, text = item
+            if route == "options":
+                return self.eng(text, {"yaql.limitIterators": 1000})
+            if route == "copy":
+                return self.eng.copy({"yaql.memoryQuota": 10 ** 6})(text)
+            return self.eng(text)
+        return self.eng(item)
+
     def body(self, i):
         self.tid[threading.get_ident()] = i
         if not self.go[i].acquire(timeout=self.timeout * 4):
             return
-        self.results[i] = outcome(lambda: self.eng(self.texts[i]))
+        self.results[i] = outcome(lambda: self.parse(self.texts[i]))
         self.state[i] = "done"
-        self.arrived.release()
+        self.arr[i].release()
+
+    def step(self, i, wait):
+        """give call i a go (unless one is pending) and wait for it to come back; True when it did"""
+        if self.state[i] == "done":
+            return True
+        if not self.pending[i]:
+            self.pending[i] = True
+            self.go[i].release()
+        if self.arr[i].acquire(timeout=wait):
+            self.pending[i] = False
+            return True
+        self.blocked_seen += 1
+        return False
 
     def run(self, schedule):
+        import time
         threads = [threading.Thread(target=self.body, args=(i,), daemon=True) for i in range(len(self.texts))]
         used = []
         with Patch(self.hook):
@@ -163,23 +193,24 @@ class Scheduled:
                 if self.state[i] == "done":
                     used.append(i)          # releasing a finished call is a no-op (as in the model)
                     continue
-                self.go[i].release()
-                if not self.arrived.acquire(timeout=self.timeout):
-                    self.problems.append("call %d did not reach a scheduling point within %.0fs" % (i, self.timeout))
-                    break
-                used.append(i)
-            # let everything finish (unscheduled remainder runs freely, one call at a time)
-            for i in range(len(self.texts)):
-                guard = 0
-                while self.state[i] != "done" and guard < 10000:
-                    guard += 1
-                    self.go[i].release()
-                    if not self.arrived.acquire(timeout=self.timeout):
-                        self.problems.append("call %d hung while draining" % i)
-                        break
+                if self.step(i, self.block_timeout):
                     used.append(i)
+            # let everything finish (unscheduled remainder runs freely, one call at a time)
+            last_progress = time.time()
+            while any(st != "done" for st in self.state):
+                progressed = False
+                for i in range(len(self.texts)):
+                    if self.state[i] != "done" and self.step(i, 0.05 if self.pending[i] else self.block_timeout):
+                        used.append(i)
+                        progressed = True
+                if progressed:
+                    last_progress = time.time()
+                elif time.time() - last_progress > self.timeout:
+                    self.problems.append("no call can make progress any more (calls %s never come back)"
+                                         % [i for i, st in enumerate(self.state) if st != "done"])
+                    break
             for t in threads:
-                t.join(timeout=self.timeout)
+                t.join(timeout=1.0)
         return used
 
 
@@ -386,8 +417,22 @@ def oracle(run, deep):
                     return
     # re-entrant switch emulation: a complete parse of B between two fetches of A (thread-free)
     pool = VALID + INVALID
+    serialising = [False]
+
+    def guarded(fn, seconds=20.0):
+        """run fn in a helper thread; None when it does not return (an engine that serialises its parses blocks a parse
+        started from inside another parse of the same thread: then this thread-free emulation does not apply)"""
+        box = []
+        th = threading.Thread(target=lambda: box.append(fn()), daemon=True)
+        th.start()
+        th.join(seconds)
+        return box[0] if box else None
     for a in pool:
-        for b in run.rng.sample(pool, 6 if run.quick else len(pool)):
+        # the other call may also be one that FAILS before it reads a token (an argument that is no text at all)
+        others = run.rng.sample(pool, 6 if run.quick else len(pool)) + run.rng.sample(EXOTIC_ARGS, 2 if run.quick else len(EXOTIC_ARGS))
+        for b in others:
+            if serialising[0]:
+                break
             for at in range(1, 4):
                 cnt = [0]
                 inner = []
@@ -403,15 +448,23 @@ def oracle(run, deep):
                                 pass
                             inner.append(2)
                     return orig(lexer)
-                with Patch(hook):
-                    got = outcome(lambda: eng(a))
-                run.case(("reentrant", a, b, at), nontrivial=True)
+                def one():
+                    with Patch(hook):
+                        return outcome(lambda: eng(a))
+                got = guarded(one)
+                if got is None:
+                    serialising[0] = True
+                    run.note("re-entrant emulation stopped: a parse started inside another parse of the same thread does not return "
+                             "(the engine serialises parses); real-thread schedules decide")
+                    break
+                run.case(("reentrant", a, repr(b), at), nontrivial=True)
                 run.count("reentrant")
                 if got != fresh[a]:
                     run.fail("violation", "a complete parse of another text between two token fetches changes the result",
-                             {"text": a, "other_text": b, "after_fetch": at, "observed": repr(got), "required": repr(fresh[a]),
+                             {"text": a, "other_text": repr(b), "after_fetch": at, "observed": repr(got), "required": repr(fresh[a]),
                               "theorem": "C01_schedule_independent (premise lexer_private)"})
                     return
+    route_schedules(run, eng, fresh)
     option_engines(run, fresh)
     process_wide_state(run)
     dialect_histories(run)
@@ -511,6 +564,48 @@ def process_wide_state(run):
                 return
         other_alias_dialect().create()
         yaql.YaqlFactory(keyword_operator=None).create()
+
+
+EXOTIC_ARGS = [None, b"1 + 2", 5, ["a"], 2.5, {"a": 1}, object]
+
+
+def route_schedules(run, eng, fresh):
+    """Real threads on ONE engine whose calls go through its different parse routes - engine(text), engine(text, options),
+    engine.copy(options)(text) - or fail before reading a token (arguments that are no text), switched at every token
+    fetch: each call gets what a fresh engine gives."""
+    texts = [t for t in VALID if len(t) > 6][:8] + INVALID[:3]
+    rng = run.rng
+    for _ in range(run.n(40, 400)):
+        k = rng.choice([2, 2, 3])
+        items = []
+        for _ in range(k):
+            r = rng.random()
+            if r < 0.2:
+                items.append(rng.choice(EXOTIC_ARGS))
+            else:
+                items.append((rng.choice(["plain", "options", "copy", "copy", "options"]), rng.choice(texts)))
+        if not any(isinstance(x, tuple) for x in items):
+            continue
+        counts = [(len(solo_facts(x[1])[1]) + 1) if isinstance(x, tuple) else 1 for x in items]
+        sched = [i for i, c in enumerate(counts) for _ in range(c)]
+        rng.shuffle(sched)
+        s = Scheduled(eng, items)
+        used = s.run(sched)
+        run.case(("routes", tuple(map(repr, items)), tuple(used)), nontrivial=True)
+        run.count("route_schedule")
+        if s.problems:
+            run.fail("violation", "parse calls through different routes of one engine: %s" % s.problems[0],
+                     {"routes": [repr(x) for x in items], "schedule": used})
+            return
+        for x, res in zip(items, s.results):
+            want = fresh.get(x[1]) if isinstance(x, tuple) else None
+            if want is None:
+                want = outcome(lambda: engine()(x[1] if isinstance(x, tuple) else x))
+            if res != want:
+                run.fail("violation", "a parse through another route of the engine (per-call options / a copy) or next to a call that "
+                                      "failed before reading a token differs from the parse by a fresh engine",
+                         {"routes": [repr(y) for y in items], "call": repr(x), "schedule": used, "observed": repr(res), "required": repr(want)})
+                return
 
 
 DIALECTS = ["default", "delegates", "nokw", "legacy", "legacy-delegates", "legacy+op", "default+op", "other-alias"]
